@@ -17,6 +17,8 @@ func init() {
 			configReadOnlyRules(c, "C10")
 			nonceRules(c, "C10")
 			headerWriterRules(c, "C10")
+			// the response head is taken apart by readLine
+			readLineRules(c, "C10")
 		},
 	})
 }
